@@ -487,7 +487,13 @@ def run(prog: Program, col: Collector, tier: str, refs: Optional[Refs] = None, c
             after = {y.id for y in ast.walk(f.node) if isinstance(y, ast.Name) and isinstance(y.ctx, ast.Load) and id(y) not in inside and y.lineno > end}
             # names that are (re)bound after the loop before being read there are not carried
             rebound = {t.id for st in walk_no_nested(f.node) if isinstance(st, ast.Assign) and st.lineno > end and id(st) not in inside for t in st.targets if isinstance(t, ast.Name)}
-            carried = sorted(nm for nm in assigned if nm in after and nm not in loop_targets and nm not in rebound)
+            # ... and only what depends on the term at hand (the loop targets, directly or through names assigned in the loop) is a per-term result
+            dep = set(loop_targets)
+            for _ in range(4):
+                for st in ast.walk(lp):
+                    if isinstance(st, ast.Assign) and any(isinstance(y, ast.Name) and y.id in dep for y in ast.walk(st.value)):
+                        dep |= {y.id for t in st.targets for y in ast.walk(t) if isinstance(y, ast.Name)}
+            carried = sorted(nm for nm in assigned if nm in after and nm not in loop_targets and nm not in rebound and nm in dep)
             col.check(not carried, f"{f.fq}::for … in {norm(lp.iter)[:30]}", "per-term results are appended / accumulated, never overwritten",
                       f"`{carried[0] if carried else ''}` is re-assigned in every round of the loop over the terms and read after the loop: only the contribution of the last "
                       "evaluated term survives, so a Delta with several terms evaluated at several points returns one term's log-density (and 0 mass mismatches of the others are lost)",
